@@ -680,6 +680,146 @@ def oracle_wrapper(ctx, rng, n_random, budget=1):
     return found, checked, changed_winner
 
 
+K_FBK = 'GaussianMultivariate.fit:fallback-remembered-across-refit'
+K_MUT = 'GaussianMultivariate.fit:mutates-user-distribution-argument'
+K_SSS = 'Univariate.fit:selection-depends-on-global-rng-at-boundary'
+
+
+def _picky_class():
+    """a marginal CLASS that cannot be fitted on fewer than 80 rows (class form of the fallback scenario)."""
+    U, _ = _imports()
+    global _Picky
+    if '_Picky' not in globals():
+        class _Picky(U.GaussianUnivariate):
+            def _fit(self, X):
+                if len(X) < 80:
+                    raise ValueError('needs at least 80 rows')
+                super()._fit(X)
+        globals()['_Picky'] = _Picky
+    return globals()['_Picky']
+
+
+def _dist_snapshot(d):
+    """identity + content of the user's `distribution` argument."""
+    if isinstance(d, dict):
+        return ('dict', tuple((k, id(v), canon(v.__dict__) if hasattr(v, '__dict__') and not isinstance(v, type) else repr(v))
+                              for k, v in d.items()))
+    if hasattr(d, '__dict__') and not isinstance(d, type):
+        return ('inst', id(d), canon(d.__dict__))
+    return ('plain', repr(d))
+
+
+def oracle_fallback_refit(ctx, rng):
+    """GaussianMultivariate whose configured marginal RAISES on the first table (the Gaussian fallback engages)
+    and is then re-fitted on a table the marginal can handle: the refit must equal a fresh equal model, and `fit`
+    must never modify the `distribution` object the user passed."""
+    from copulas.multivariate import GaussianMultivariate
+    U, _ = _imports()
+    Picky = _picky_class()
+    w = np.linspace(1.0, 2.0, 100)
+    forms = {
+        # (every column is named: an unnamed one would get the default selecting wrapper, which is slow)
+        'dict{a: GaussianKDE(weights=w100) instance, b: Uniform class, c: Gaussian class}':
+            lambda: {'a': U.GaussianKDE(weights=w.copy()), 'b': U.UniformUnivariate, 'c': U.GaussianUnivariate},
+        'dict{a: Gaussian name, b: GaussianKDE(weights=w100, bw_method=0.5) instance, c: Gaussian class}':
+            lambda: {'a': 'copulas.univariate.gaussian.GaussianUnivariate', 'b': U.GaussianKDE(weights=w.copy(), bw_method=0.5),
+                     'c': U.GaussianUnivariate},
+        'dict{a: class failing on < 80 rows, b: Uniform class, c: TruncatedGaussian instance}':
+            lambda: {'a': Picky, 'b': U.UniformUnivariate, 'c': U.TruncatedGaussian(minimum=-50.0, maximum=90.0)},
+        'instance GaussianKDE(weights=w100)': lambda: U.GaussianKDE(weights=w.copy()),
+        'class failing on < 80 rows': lambda: Picky,
+    }
+    found = {}
+    checked = 0
+    for label, mkd in forms.items():
+        for hist in ([60, 100], [100, 60, 100], [60, 45, 100]):
+            seeds = [rng.randrange(1 << 30) for _ in hist]
+            frames = [mv_frame({'n': n, 'k': 3, 'seed': sd, 'shift': 5.0}).rename(columns={'c0': 'a', 'c1': 'b', 'c2': 'c'})
+                      for n, sd in zip(hist, seeds)]
+            inp = {'distribution': label, 'rows_of_each_fit': hist, 'data_seeds': seeds,
+                   'data': 'mv_frame(n, k=3, seed, shift=5.0) with columns a,b,c'}
+            try:
+                d1 = mkd()
+                gm1 = GaussianMultivariate(distribution=d1)
+                snap = _dist_snapshot(d1)
+                fell_back = False
+                mutated_after = None
+                for j, fr in enumerate(frames):
+                    _quiet(fit_pinned, gm1, fr, 11 + j)
+                    kinds = [type(u).__name__ for u in gm1.univariates]
+                    fell_back = fell_back or (fr.shape[0] < 80 and 'GaussianUnivariate' in kinds)
+                    if mutated_after is None and _dist_snapshot(d1) != snap:
+                        mutated_after = j + 1
+                gm2 = GaussianMultivariate(distribution=mkd())
+                _quiet(fit_pinned, gm2, frames[-1], 11 + len(frames) - 1)
+            except Exception as e:  # noqa
+                ctx.count('fallback:skipped-fit-raised:' + type(e).__name__)
+                continue
+            checked += 1
+            ctx.case(('fallback-refit', label, tuple(hist), tuple(seeds)), nontrivial=fell_back)
+            ctx.count('fallback:' + ('engaged' if fell_back else 'not-engaged'))
+            if mutated_after is not None:
+                found[K_MUT] = found.get(K_MUT, 0) + 1
+                now = {k: getattr(v, '__name__', type(v).__name__) for k, v in d1.items()} if isinstance(d1, dict) else type(d1).__name__
+                ctx.fail_input('GaussianMultivariate.fit', inp, {'modified_by_fit_number': mutated_after, 'distribution_now': now},
+                               'fit does not modify the `distribution` object the caller passed (the constructor arguments stay '
+                               'what the user gave)', K_MUT)
+            t1 = [type(u).__name__ for u in gm1.univariates]
+            t2 = [type(u).__name__ for u in gm2.univariates]
+            if mv_view(gm1) != mv_view(gm2) or t1 != t2:
+                found[K_FBK] = found.get(K_FBK, 0) + 1
+                ctx.fail_input('GaussianMultivariate.fit', inp, {'marginals_of_refitted': t1, 'marginals_of_fresh': t2,
+                                                                  'to_dict_equal': mv_view(gm1) == mv_view(gm2)},
+                               'a model re-fitted on X is observably identical to a fresh equal model fitted on X', K_FBK)
+    return found, checked
+
+
+def oracle_selection_boundary(ctx, rng):
+    """`selection_sample_size` at len(X) and above: all the data are used for the selection, so the fitted wrapper
+    must not depend on the state of the global numpy generator (below len(X) a random subsample is documented)."""
+    U, _ = _imports()
+    PT, BT = U.ParametricType, U.BoundedType
+    configs = {
+        'candidates=[Uniform, Gaussian, TruncatedGaussian, Gamma]':
+            (dict(candidates=[U.UniformUnivariate, U.GaussianUnivariate, U.TruncatedGaussian, U.GammaUnivariate]), (-1, 0, 1)),
+        'candidates=[Gaussian, Uniform, Gamma]':
+            (dict(candidates=[U.GaussianUnivariate, U.UniformUnivariate, U.GammaUnivariate]), (0, 1)),
+        'parametric=PARAMETRIC, bounded=UNBOUNDED': (dict(parametric=PT.PARAMETRIC, bounded=BT.UNBOUNDED), (0,)),
+    }
+    found = {}
+    checked = 0
+    states = [rng.randrange(1 << 30) for _ in range(4)]
+    for label, (kw, offs) in configs.items():
+        for n, dseed in ((24, 5), (50, 6), (rng.randint(20, 40), rng.randrange(1 << 20))):
+            X = 1.0 + 4.0 * np.random.RandomState(dseed).triangular(0.0, 0.5, 1.0, n)
+            for off in offs:
+                sss = n + off
+                outs = []
+                for st in states:
+                    w = U.Univariate(selection_sample_size=sss, **copy.deepcopy(kw))
+                    try:
+                        fit_pinned(w, X, st)            # `st` = state of the global generator when fit is called
+                        o = observe(w)
+                        outs.append((type(w._instance).__name__, o))
+                    except Exception as e:  # noqa
+                        outs.append(('raised ' + type(e).__name__, None))
+                checked += 1
+                fams = [f for f, _ in outs]
+                varies = any(f != fams[0] for f in fams) or any(o is not None and outs[0][1] is not None and obs_xdiff(o, outs[0][1])
+                                                                for _, o in outs[1:])
+                ctx.case(('sss-boundary', label, n, dseed, off), nontrivial=off >= 0)
+                ctx.count(f'sss:{"below" if off < 0 else "at" if off == 0 else "above"}:{"varies" if varies else "stable"}')
+                if off >= 0 and varies:
+                    found[K_SSS] = found.get(K_SSS, 0) + 1
+                    ctx.fail_input('copulas.univariate.Univariate.fit',
+                                   {'wrapper': f'Univariate({label}, selection_sample_size={sss})', 'len_X': n,
+                                    'data': f'1 + 4*RandomState({dseed}).triangular(0, .5, 1, {n})', 'global_numpy_seeds': states},
+                                   {'selected_family_per_global_state': fams},
+                                   'with selection_sample_size >= len(X) all data are used: two fresh equal fits on X agree whatever '
+                                   'the state of the global numpy generator', K_SSS)
+    return found, checked
+
+
 def user_bound_configs():
     """TruncatedGaussian WITH explicit user bounds: zero (int, 0.0, -0.0) on either side, one-sided, two-sided,
     keyword / positional / mixed; `sign` = which side of 0 the data must lie."""
@@ -1782,6 +1922,12 @@ def _run_rest(ctx, lean, flags):
     if r is not None:
         ctx.ob('oracle:refit-wrapper', not r[0] and r[2] >= 8, 'tie',
                {'findings': r[0], 'histories': r[1], 'histories_where_the_winning_family_changes': r[2]})
+    r = _phase(ctx, 'oracle_fallback_refit', oracle_fallback_refit, ctx, ctx.rng('fallback-run'))
+    if r is not None:
+        ctx.ob('oracle:fallback-then-refit', not r[0], 'tie', {'findings': r[0], 'histories': r[1]})
+    r = _phase(ctx, 'oracle_selection_boundary', oracle_selection_boundary, ctx, ctx.rng('sss-run'))
+    if r is not None:
+        ctx.ob('oracle:selection_sample_size-boundary', not r[0], 'tie', {'findings': r[0], 'cases': r[1]})
     r = _phase(ctx, 'oracle_user_bounds', oracle_user_bounds, ctx, ctx.rng('user-bounds-run'), 1 * ctx.scale)
     if r is not None:
         ctx.ob('oracle:truncated-user-bounds', K_USER not in r[0], 'tie', {'findings': r[0], 'histories': r[1]})
@@ -1799,13 +1945,15 @@ def search(ctx, deep):
     scale = 6 if deep else 1
     found, n1 = oracle_uni(ctx, rng, 2 * scale, forced=False)
     bad, n2 = oracle_multi(ctx, rng, 1 * scale)
+    fb, n7 = oracle_fallback_refit(ctx, rng) if deep else ({}, 0)        # quick tier: `run` has just done these
+    sb, n8 = oracle_selection_boundary(ctx, rng) if deep else ({}, 0)
     # `run` has already exercised these two with the forced histories; repeat them on new seeds only in a deep search
     ub, n4 = oracle_user_bounds(ctx, rng, 1 * scale) if deep else ({}, 0)
     wf, n5, n6 = oracle_wrapper(ctx, rng, 1 * scale, 4) if deep else ({}, 0, 0)
     cfg = [(rng.choice(['center', 'direct', 'regular']), rng.choice([4, 5, 6, 7] if deep else [4, 5, 6]), rng.randint(40, 80), 3,
             rng.randrange(1 << 20)) for _ in range(3 * scale)]
     f, n3 = check_uninit(ctx, cfg)
-    ctx.support = {'wrapper_histories': n5, 'wrapper_winner_changes': n6, 'wrapper_findings': wf, 'user_bound_histories': n4, 'user_bound_findings': ub, 'refit_histories': n1, 'refit_findings': found, 'multivariate_pairs': n2, 'vines_poisoned': n3,
+    ctx.support = {'fallback_histories': n7, 'fallback_findings': fb, 'sss_boundary_cases': n8, 'sss_findings': sb, 'wrapper_histories': n5, 'wrapper_winner_changes': n6, 'wrapper_findings': wf, 'user_bound_histories': n4, 'user_bound_findings': ub, 'refit_histories': n1, 'refit_findings': found, 'multivariate_pairs': n2, 'vines_poisoned': n3,
                    'uninitialised_findings': f, 'deep': deep}
 
 
@@ -1819,6 +1967,11 @@ def replay(ctx, payload):
         import copulas.univariate as U
         cls = getattr(U, inp['class'])
         refit_oracle(ctx, cls, inp.get('ctor_raw', {}), inp['history'], inp['seed0'])
+    elif cls_key in (K_FBK, K_MUT):
+        oracle_fallback_refit(ctx, ctx.rng('fallback-run'))
+    elif cls_key == K_SSS:
+        oracle_selection_boundary(ctx, ctx.rng('sss-run'))
+        oracle_selection_boundary(ctx, ctx.rng('search'))
     elif cls_key == K_WSEL or str(cls_key).startswith('Univariate.fit:'):
         oracle_wrapper(ctx, ctx.rng('wrapper-oracle-run'), 1)
         oracle_wrapper(ctx, ctx.rng('search'), 1)
